@@ -30,3 +30,76 @@ package redis
 //@   loop 1 invariant firstfrom(b, 125, i+1, n) == firstfrom(b, 125, j, n)
 //@   loop 1 decreases n - j
 //@   loop 1 unfold firstfrom(b, 125, j, n)
+
+// ---- C18: SCAN cursor ------------------------------------------------------
+
+//@ func (*scanRequest).parseCursor
+//@   mode bv
+//@   prop C18
+//@   modifies nothing
+//@   ensures @split result0 == curidx(cursor) && result1 == curlow(cursor)
+
+//@ func (*scanRequest).genCursor
+//@   mode bv
+//@   prop C18
+//@   modifies nothing
+//@   ensures @join result == curjoin(nodeIdx, nodeCursor)
+
+//@ func newScanRequest
+//@   prop C18 C11
+//@   requires raw != nil && raw.body != nil
+//@   ensures @too-short len(raw.body.Array) < 2 ==> result1 != nil
+//@   ensures @parsed result1 == nil ==> result0 != nil && result0.raw == raw && len(raw.body.Array) >= 2
+
+//@ func handleScan
+//@   prop C18 C11
+//@   requires req != nil && req.body != nil && u != nil
+
+//@ func (*scanRequest).Convert
+//@   prop C18 C11
+//@   requires r != nil && r.raw != nil && r.raw.body != nil && len(r.raw.body.Array) >= 2
+//@   ensures @idx nodeIdx == old(r.nodeIdx) && sreq != nil
+
+//@ func (*scanRequest).Convert$1
+//@   prop C18 C11
+
+//@ func (*scanRequest).Convert$2
+//@   prop C18 C11
+
+// ---- requests (shared by C01 C02 C03 C14 C18 C20) ---------------------------
+
+//@ func newSimpleRequest
+//@   prop C18 C03 C02
+//@   modifies nothing
+//@   ensures @fresh result != nil && fresh(result) && result.body == v && result.resp == nil && len(result.hooks) == 0 && !closed(result.done) && result.done != nil
+
+//@ func newRawRequest
+//@   prop C02 C01
+//@   modifies nothing
+//@   ensures @fresh result != nil && fresh(result) && result.body == v && result.resp == nil && len(result.hooks) == 0 && !closed(result.done) && result.done != nil
+
+//@ func (*simpleRequest).RegisterHook
+//@   prop C18 C02
+//@   requires r != nil
+//@   modifies r.hooks, r.hooks[len(r.hooks):cap(r.hooks)]
+//@   ensures @appended len(r.hooks) == old(len(r.hooks)) + 1
+
+//@ func (*rawRequest).RegisterHook
+//@   prop C02
+//@   requires r != nil
+//@   modifies r.hooks, r.hooks[len(r.hooks):cap(r.hooks)]
+//@   ensures @appended len(r.hooks) == old(len(r.hooks)) + 1
+
+// ---- C10: decimal parsing -------------------------------------------------------
+
+//@ func btoi64
+//@   prop C10 C18 C11
+//@   modifies nothing
+//@   ensures @value result1 == nil ==> wellformed(str(b)) && result0 == sdec(str(b))
+//@   ensures @accepts wellformed(str(b)) && len(b) < 19 ==> result1 == nil
+//@   loop 0 invariant entry(i) <= i && i <= len(b) && 0 < len(b) && len(b) < 10 && entry(i) == signlen(str(b))
+//@   loop 0 invariant alldig(str(b), entry(i), i) && n == decacc(str(b), entry(i), i) && 0 <= n && n <= pow10(i - entry(i)) - 1
+//@   loop 0 invariant neg == (b[0] == 45)
+//@   loop 0 unfold alldig(str(b), entry(i), i+1)
+//@   loop 0 unfold decacc(str(b), entry(i), i+1)
+//@   loop 0 decreases len(b) - i
